@@ -48,6 +48,9 @@ class RichUprpEditor:
                         f"Current CUWP: {lookup.get_cuwp_by_id(cuwp_to_add.index)}, "
                         f"Attempted replacement: {cuwp_to_add}"
                     )
+            elif cuwp_to_add in new_cuwp_slots:
+                # CUWP equality ignores the index: equal unit properties reuse the existing slot
+                continue
             else:
                 # only a CUWP that needs a new slot can run out of slots
                 if not allocable_ids:
